@@ -154,3 +154,79 @@ pub fn run(f: &[&str]) -> String {
         }
     }
 }
+
+// ---------------------------------------------------------------------------------------------
+// kind `valexpr`: whole expressions over the value table through parse_val (literals folded at
+// parse time) and eval (variables)
+
+const VNAMES: &[&str] = &["v", "x", "y", "z"];
+
+fn gen_vexpr(r: &mut Rng, depth: usize, used: &mut Vec<usize>) -> String {
+    let roll = r.below(20);
+    if depth >= 3 || roll < 7 {
+        // leaf
+        return match r.below(12) {
+            0..=3 => {
+                let i = r.below(VNAMES.len());
+                if !used.contains(&i) {
+                    used.push(i);
+                }
+                VNAMES[i].to_string()
+            }
+            4..=5 => format!("{}", r.below(20)),
+            6 => r.pick(&["2147483647", "2147483648", "99999999999", "0", "1", "31", "32", "13"]).to_string(),
+            7..=8 => format!("{}.{}", r.below(10), r.below(100)),
+            9 => r.pick(&["10000000000.0", "0.0", "2147483647.5", "1.0", "0.5"]).to_string(),
+            10 => r.pick(&["true", "false"]).to_string(),
+            _ => r.pick(&["[1, 2, 3]", "[0.5,2]", "[1]", "[3, 4.5, 1, 2]", "[ 1 , 2 ]"]).to_string(),
+        };
+    }
+    if roll < 10 {
+        let u = *r.pick(&["-", "+", "abs", "sin", "to_int", "to_float", "fact", "signum", "sqrt", "floor", "length", "ln", "swap_bytes", "round"]);
+        let inner = gen_vexpr(r, depth + 1, used);
+        return if r.chance(1, 3) && (u == "-" || u == "+") { format!("{}{}", u, inner) } else { format!("{}({})", u, inner) };
+    }
+    if roll < 12 {
+        // piecewise
+        return format!("{} if {} else {}", gen_vexpr(r, depth + 1, used), gen_vexpr(r, depth + 1, used), gen_vexpr(r, depth + 1, used));
+    }
+    let o = *r.pick(&["+", "-", "*", "/", "^", "%", "|", "&", "XOR", "<<", ">>", "&&", "||", "==", "!=", "<", "<=", ">", ">=", "min", "max", "dot", "cross", ".", "atan2", "+", "*", "-"]);
+    let a = gen_vexpr(r, depth + 1, used);
+    let b = gen_vexpr(r, depth + 1, used);
+    match r.below(4) {
+        0 => format!("({}) {} ({})", a, o, b),
+        1 if o.chars().all(|c| c.is_alphabetic()) => format!("{}({}, {})", o, a, b),
+        _ => format!("{} {} {}", a, o, b),
+    }
+}
+
+pub fn gen_expr(r: &mut Rng, _tier: &str, _i: usize, stats: &mut BTreeMap<String, u64>) -> String {
+    let mut used = vec![];
+    let text = gen_vexpr(r, 0, &mut used);
+    used.sort_by_key(|i| VNAMES[*i]);
+    let vals: Vec<String> = used.iter().map(|_| enc(&rand_val(r))).collect();
+    *stats.entry(format!("nvars_{}", used.len())).or_insert(0) += 1;
+    format!("valexpr\t{}\t{}", hex(&text), if vals.is_empty() { "-".to_string() } else { vals.join("|") })
+}
+
+pub fn run_expr(f: &[&str]) -> String {
+    let text = crate::sym::unhex(f[0]);
+    let vals: Vec<V> = if f[1] == "-" { vec![] } else { f[1].split('|').map(dec).collect() };
+    let t2 = text.clone();
+    let parsed = std::panic::catch_unwind(move || exmex::parse_val::<i32, f64>(&t2));
+    match parsed {
+        Err(_) => "p=PANIC".into(),
+        Ok(Err(_)) => "p=E".into(),
+        Ok(Ok(e)) => {
+            use exmex::Express;
+            let vars = e.var_names().to_vec();
+            let r = std::panic::catch_unwind(std::panic::AssertUnwindSafe(|| e.eval(&vals)));
+            let rs = match r {
+                Err(_) => "PANIC".to_string(),
+                Ok(Err(_)) => "E".to_string(),
+                Ok(Ok(v)) => enc(&v),
+            };
+            format!("p=ok\tvars={}\tr={}", crate::k_flat::strs(&vars), rs)
+        }
+    }
+}
